@@ -170,6 +170,24 @@ func compareType(in Input, e *yang.EnumType, want map[string]int64) *fail {
 	return nil
 }
 
+var enumNames = []string{"a", "A", "a b", "a  b", "10 Gbps", "a\tb", "1", "01", "10", "9", "-1", "+1", "0x1", "1.5", "1e3", "true", "enum", "value", "type", "min", "é", "e\u0301", "😀", "a.b", "a-b", "a_b", "a:b", "a/b", "*", "a\"b", "a\\b", "a'b", "a;b", "a{b", "//a", "/*a*/", "a+b", "n0"}
+var bitNames = []string{"a", "A", "a.b", "a-b", "a_b", "_", "_1", "bit", "position", "type", "e10", "e9", "x-", "n0"}
+
+// quote writes a name as a double-quoted YANG string when it is not a plain word.
+func quote(n string) string {
+	plain := n != ""
+	for _, c := range n {
+		if !(c == '_' || c == '-' || c == '.' || c >= '0' && c <= '9' || c >= 'a' && c <= 'z' || c >= 'A' && c <= 'Z') {
+			plain = false
+		}
+	}
+	if plain {
+		return n
+	}
+	r := strings.NewReplacer("\\", "\\\\", "\"", "\\\"", "\t", "\\t", "\n", "\\n")
+	return "\"" + r.Replace(n) + "\""
+}
+
 func render(in Input) string {
 	var sb strings.Builder
 	sb.WriteString("module m { namespace \"urn:m\"; prefix m; leaf l { type ")
@@ -180,9 +198,9 @@ func render(in Input) string {
 	sb.WriteString(kw + " {")
 	for i, n := range in.Names {
 		if in.Values[i] == "" {
-			fmt.Fprintf(&sb, " %s %s;", sub, n)
+			fmt.Fprintf(&sb, " %s %s;", sub, quote(n))
 		} else {
-			fmt.Fprintf(&sb, " %s %s { %s %s; }", sub, n, val, in.Values[i])
+			fmt.Fprintf(&sb, " %s %s { %s %s; }", sub, quote(n), val, in.Values[i])
 		}
 	}
 	sb.WriteString(" } } }")
@@ -305,7 +323,7 @@ func run(c *core.Ctx) {
 	kind, path = parts[0], parts[1]
 	fmt.Sscanf(parts[2], "%d", &first)
 	L := maxLen(c.Tier, path)
-	c.Res.Bound = fmt.Sprintf("member sequences of length <= %d over %d values incl. implicit x all patterns of repeated names; enums and bits; API and module text; 1..150 distinct enum and bits types in one schema followed by exact repeats of the first, middle and last; long lists: 1..300 implicit members alone and followed by an explicit repeat, and pairs with the same explicit value v for every v in 0..300 and around the powers of two to 2^32", L, len(alphabet))
+	c.Res.Bound = fmt.Sprintf("member sequences of length <= %d over %d values incl. implicit x all patterns of repeated names; enums and bits; API and module text; 1..150 distinct enum and bits types in one schema followed by exact repeats of the first, middle and last; long lists: 1..300 implicit members alone and followed by an explicit repeat, and pairs with the same explicit value v for every v in 0..300 and around the powers of two to 2^32; every ordered pair of %d enum (%d bit) member names of awkward classes", L, len(alphabet), len(enumNames), len(bitNames))
 	vals := make([]string, 0, L)
 	names := make([]string, 0, L)
 	var rec func()
@@ -379,6 +397,24 @@ func run(c *core.Ctx) {
 		}
 		for p := int64(512); p <= 1<<32; p *= 2 {
 			vsweep = append(vsweep, p-1, p, p+1)
+		}
+		// member names of every class the argument admits: an enum name is any string without
+		// leading or trailing white space (interior blanks and tabs, digits only, signs, keywords,
+		// quotes, characters outside ASCII, case variants), a bit name is an identifier. Every
+		// ordered pair of them with four value patterns, and every name alone.
+		awk := enumNames
+		if kind == "bits" {
+			awk = bitNames
+		}
+		for _, a := range awk {
+			set([]string{a}, []string{""})
+			set([]string{a}, []string{"7"})
+			for _, b := range awk {
+				for _, vp := range [][2]string{{"", ""}, {"5", ""}, {"", "5"}, {"3", "3"}} {
+					set([]string{a, b}, []string{vp[0], vp[1]})
+				}
+				set([]string{"n0", a, b, "n3"}, []string{"", "", "", ""})
+			}
 		}
 		for _, v := range vsweep {
 			set([]string{"a", "b"}, []string{fmt.Sprint(v), fmt.Sprint(v)})
